@@ -169,6 +169,18 @@ pub fn swarm(p: &mut Profile, seed: u64) -> bool {
 
 pub const EPS_NS: u64 = 30_000;
 
+/// Strict nesting: programs for the build with fastrace's debug assertions compiled in honour the
+/// one precondition the library states (guards and local spans are released in reverse order of
+/// creation) also where the other build deliberately does not: a scope is collected with local
+/// spans still open only if no other scope is below it, and the dead guards are dropped at once.
+static STRICT: std::sync::atomic::AtomicBool = std::sync::atomic::AtomicBool::new(false);
+pub fn set_strict(on: bool) {
+    STRICT.store(on, std::sync::atomic::Ordering::Relaxed);
+}
+pub fn strict() -> bool {
+    STRICT.load(std::sync::atomic::Ordering::Relaxed)
+}
+
 pub fn base_profile(prop: &'static str) -> Profile {
     Profile {
         prop,
@@ -771,6 +783,7 @@ struct Gen<'a> {
     interval: u64,
     bursts: u32,
     burst_ok: bool,
+    td_armed: std::collections::HashSet<u8>,
     in_poll: bool,
     cur_task: Option<Slot>,
 }
@@ -1289,8 +1302,21 @@ impl<'a> Gen<'a> {
                 if pos + 1 == st.len() {
                     return false;
                 }
+                let real = |h: &LH| matches!(h, LH::Guard { real: true } | LH::Coll { real: true });
+                let dead_guards = st.len() - pos - 1;
+                let strict_pops = strict() && real(&st[pos]);
+                // (the scope parked by TeardownCalls is a real one below everything else)
+                if strict_pops && (st[..pos].iter().any(real) || self.td_armed.contains(&t)) {
+                    return false;
+                }
                 let into = if matches!(st[pos], LH::Coll { .. }) && self.rng.pct(80) { Some(self.new_slot()) } else { None };
-                self.push(t, Op::Collect { into })
+                let ok = self.push(t, Op::Collect { into });
+                if ok && strict_pops {
+                    for _ in 0..dead_guards {
+                        self.push(t, Op::Pop { into: None });
+                    }
+                }
+                ok
             }
             K::UnwindScope => {
                 let live = self.live_spans();
@@ -1336,7 +1362,15 @@ impl<'a> Gen<'a> {
                 let slot = if live.is_empty() || self.rng.pct(60) { None } else { Some(*self.rng.pick(&live)) };
                 self.push(t, Op::AddEventFrom { slot, ev })
             }
-            K::TeardownLate => self.push(t, Op::TeardownCalls { early: false }),
+            K::TeardownLate => {
+                // the handles it parks are released by the thread's teardown, i.e. after everything
+                // the thread opens later: nothing may be open below them
+                if !self.model.threads[t as usize].stack.is_empty() {
+                    return false;
+                }
+                self.td_armed.insert(t);
+                self.push(t, Op::TeardownCalls { early: false })
+            }
             K::LocalBurst => {
                 if self.bursts >= 1 || !self.burst_ok {
                     return false;
@@ -1502,6 +1536,7 @@ pub fn generate_with(p: &Profile, seed: u64) -> Case {
         burst_ok: false,
         in_poll: false,
         cur_task: None,
+        td_armed: Default::default(),
     };
     // limit-overflow bursts are expensive (10k spans / 4k scopes): a few per cent of the runs
     g.burst_ok = g.rng.pct(4);
@@ -1628,6 +1663,7 @@ pub fn generate_with(p: &Profile, seed: u64) -> Case {
         str_seed,
         ops: g.ops,
         sched,
+        checked: false,
     }
 }
 
